@@ -59,6 +59,8 @@ class C17(Prop):
         case = {"kind": "merge", "a": None if a is None else to_cfg(a), "b": None if b is None else to_cfg(b)}
         if share and a is not None and b is not None:
             case["share"] = True
+        if a is not None and b is not None and rng.random() < 0.15:
+            case["threads"] = True      # also called from two threads whose calls overlap (a pure function does not care)
         return case
 
     def exhaustive(self, tier: str):
@@ -76,7 +78,9 @@ class C17(Prop):
             a, b = _alias(a), _alias(b)     # equal mappings inside one argument become one object
         a0, b0 = copy.deepcopy(a), copy.deepcopy(b)
         res = merge_config(a, b)
+        overlap = _overlapping_calls(merge_config, a, b) if case.get("threads") else None
         return {
+            "overlap": None if overlap is None else [to_cfg(r) if isinstance(r, dict) else {"o": repr(r)} for r in overlap],
             "out": to_cfg(res),
             "is_dict": type(res) is dict,
             "args_unchanged": a == a0 and b == b0 and _same_types(a, a0) and _same_types(b, b0),
@@ -100,6 +104,9 @@ class C17(Prop):
             fails.append("merge_config modified one of its arguments")
         if not impl["fresh"] or not impl["is_dict"]:
             fails.append("merge_config did not return a new dict")
+        if impl.get("overlap") and any(r != impl["expected"] for r in impl["overlap"]):
+            fails.append("two calls on the same arguments, one made (by another thread) while the other was inside its "
+                         "nested merge, do not both return the documented merge: the function keeps state between calls")
         return fails
 
     def nontrivial(self, case, impl):
@@ -132,6 +139,52 @@ class C17(Prop):
             if c is None:
                 continue
             yield from ({**case, side: s} for s in _shrink_cfg(c))
+
+
+def _overlapping_calls(merge_config: Any, a: Any, b: Any) -> list[Any] | None:
+    """Call merge_config(a, b) in a second thread and hold that call at the entry of its first nested call (into any
+    function of the module merge_config lives in); make a complete call on the same arguments meanwhile; release.
+    Returns both results, or None if there was no nested call to stop at."""
+    import sys
+    import threading
+
+    fn = getattr(merge_config, "__wrapped__", merge_config)
+    module_file = fn.__code__.co_filename
+    at_nested, go_on = threading.Event(), threading.Event()
+    depth = [0]
+    res_a: list[Any] = []
+
+    def tracer(frame: Any, event: str, arg: Any) -> Any:
+        if event == "call" and frame.f_code.co_filename == module_file:
+            depth[0] += 1
+            if depth[0] == 2 and not at_nested.is_set():
+                at_nested.set()
+                go_on.wait(5)
+        return None
+
+    def run_a() -> None:
+        sys.settrace(tracer)
+        try:
+            res_a.append(merge_config(a, b))
+        except BaseException as e:  # noqa: BLE001
+            res_a.append(e)
+        finally:
+            sys.settrace(None)
+
+    t = threading.Thread(target=run_a)
+    t.start()
+    res_b: Any = None
+    while t.is_alive() and not at_nested.is_set():
+        at_nested.wait(0.0005)          # (a call without a nested call just finishes)
+    stopped = at_nested.is_set()
+    if stopped:
+        try:
+            res_b = merge_config(a, b)
+        except BaseException as e:  # noqa: BLE001
+            res_b = e
+    go_on.set()
+    t.join(10)
+    return [res_a[0] if res_a else RuntimeError("the first call did not finish"), res_b] if stopped else None
 
 
 def _alias(x: Any, seen: list[Any] | None = None) -> Any:
